@@ -296,108 +296,137 @@ def _unroll_literal_for(loop, fn):
 
 
 def dimension(ctx, d3):
+    """decided on the paths of the normal form: a path that answers (name, factor) for units that are not memoised has taken exactly one
+    test  dimensionality(units) == X_units.dimensionality  and returns ('X', X_units.conversion_factor(units)); when all three
+    tests fail the path raises DimensionError"""
     prog = ctx.prog
     f = prog.method('Stream', '_get_flow_name_and_factor', rel=ST)
     up = f.params[1]
-    dims = {t.id for n in walk_no_nested(f.node) if isinstance(n, ast.Assign) and 'get_dimensionality(%s)' % up in src(n.value)
-            for t in n.targets if isinstance(t, ast.Name)}
-    chain = None
-    for n in walk_no_nested(f.node):
-        if isinstance(n, ast.If) and isinstance(n.test, ast.Compare) and src(n.test.left) in dims and isinstance(n.test.ops[0], ast.Eq) \
-                and not isinstance(getattr(n, '_parent', None), ast.For):
-            chain = n
-            break
-    if chain is None:
-        # the same dispatch written as a loop over a literal table:  for name, U in ((..., ...), ...): if dim == U.dimensionality: ...; break / else: raise
-        for n in walk_no_nested(f.node):
-            if isinstance(n, ast.For):
-                chain = _unroll_literal_for(n, f.node)
-                if chain is not None:
-                    break
-    if chain is None:
-        raise AnalysisError('dimension dispatch not found')
-    rets = [r for r in walk_no_nested(f.node) if isinstance(r, ast.Return) and isinstance(r.value, ast.Tuple) and len(r.value.elts) == 2]
-    if not rets:
-        raise AnalysisError('_get_flow_name_and_factor: (name, factor) return not found')
-    name_v, factor_v = (src(e) for e in rets[0].value.elts)
-    cur = chain
-    n = 0
-    while True:
-        m = re.match(r'^(\w+)_units\.dimensionality$', src(cur.test.comparators[0])) if isinstance(cur.test, ast.Compare) and src(cur.test.left) in dims else None
-        if not m:
-            d3.fail('Stream._get_flow_name_and_factor', 'test-shape', 'unexpected dimension test %s' % src(cur.test), f, cur)
-            break
-        k = m.group(1)
-        body = {src(s.targets[0]): src(s.value) for s in cur.body if isinstance(s, ast.Assign)}
-        if body.get(name_v) == repr(k) and body.get(factor_v) == '%s_units.conversion_factor(%s)' % (k, up):
-            d3.ok('Stream._get_flow_name_and_factor[%s]' % k, 'name %r with the factor of %s_units' % (k, k), f, cur)
-        else:
-            d3.fail('Stream._get_flow_name_and_factor[%s]' % k, 'factor-mismatch', 'dimension %s yields %s' % (k, sorted(body.values())), f, cur)
-        n += 1
-        if len(cur.orelse) == 1 and isinstance(cur.orelse[0], ast.If):
-            cur = cur.orelse[0]
+    node = prog.normal_form(f)
+    ps, trunc = run_paths(node, follow_except=False, max_paths=2000)
+    if trunc:
+        raise AnalysisError('_get_flow_name_and_factor: path enumeration truncated')
+    DIM = re.compile(r'^\(\w[\w.]*get_dimensionality\(%s\) == (\w+)_units\.dimensionality\)$' % re.escape(up))
+    seen = {}
+    rejected = False
+    n_paths = 0
+    for p in ps:
+        tests = []
+        for tmap, taken, test in p.rconds:
+            mm = DIM.match(tmap.get(id(test), ''))
+            if mm:
+                tests.append((mm.group(1), taken))
+        if not tests:
+            continue            # the memoised answer
+        n_paths += 1
+        yes = [k for k, t in tests if t]
+        if p.raised:
+            rz = [e for e in p.events if e.kind == 'raise']
+            if not yes and rz and 'DimensionError' in src(rz[-1].stmt):
+                rejected = True
             continue
-        if cur.orelse and isinstance(cur.orelse[0], ast.Raise) and 'DimensionError' in src(cur.orelse[0]):
-            d3.ok('Stream._get_flow_name_and_factor', 'any other dimensionality raises DimensionError', f, cur.orelse[0])
+        if len(yes) != 1:
+            d3.fail('Stream._get_flow_name_and_factor', 'no-dimension-error', 'units of another dimension are not rejected', f, node)
+            continue
+        k = yes[0]
+        ret = p.tup.get('<ret>') or []
+        got = [r.pretty() for r in ret]
+        if got == [repr(k), '%s_units.conversion_factor(%s)' % (k, up)]:
+            seen.setdefault(k, []).append(True)
         else:
-            d3.fail('Stream._get_flow_name_and_factor', 'no-dimension-error', 'units of another dimension are not rejected', f, cur)
-        break
-    if n != 3:
-        d3.fail('Stream._get_flow_name_and_factor', 'dimensions', 'expected molar, mass and volumetric branches, found %d' % n, f, chain)
+            seen.setdefault(k, []).append(False)
+            d3.fail('Stream._get_flow_name_and_factor[%s]' % k, 'factor-mismatch', 'dimension %s yields %s' % (k, got), f,
+                    p.ret_node if p.ret_node is not None else node)
+    if not n_paths:
+        raise AnalysisError('dimension dispatch not found')
+    for k, lst in sorted(seen.items()):
+        if all(lst):
+            d3.ok('Stream._get_flow_name_and_factor[%s]' % k, 'name %r with the factor of %s_units' % (k, k), f)
+    if rejected:
+        d3.ok('Stream._get_flow_name_and_factor', 'any other dimensionality raises DimensionError', f)
+    else:
+        d3.fail('Stream._get_flow_name_and_factor', 'no-dimension-error', 'units of another dimension are not rejected', f, node)
+    if len(seen) != 3:
+        d3.fail('Stream._get_flow_name_and_factor', 'dimensions', 'expected molar, mass and volumetric branches, found %d' % len(seen), f, node)
 
 
 def volumetric(ctx, d4):
-    """The cached molar volume depends on (chemical, phase, T, P): the validity test must cover phase and TP,
-    and the entry must record a copy of TP and the phase it was computed for."""
+    """The cached molar volume depends on (chemical, phase, T, P).  Decided on the paths of the normal form of output / input (a shared
+    helper is inlined): a path that uses the remembered volume has established BOTH that the current phase equals the recorded one and
+    that the recorded T,P are in equilibrium with the current ones; a path that evaluates V(*self.TP) records (copy of TP, phase, V)."""
+    from ..resolve import resolved, path_defs
     prog = ctx.prog
     c = prog.cls('VolumetricFlowDict', DV)
     for nm in ('output', 'input'):
         f = c.methods[nm]
-        ps, _ = run_paths(f.node)
+        node = prog.normal_form(f)
+        ps, _ = run_paths(node, follow_except=False)
         cons = 'VolumetricFlowDict.' + nm
-        # inputs of the recomputation
-        def tp_calls(fn_):
-            return [n for n in walk_no_nested(fn_.node) if isinstance(n, ast.Call) and any(isinstance(a, ast.Starred) and src(a.value) == 'self.TP' for a in n.args)]
-        calls = tp_calls(f)
-        if not calls:
-            # the cached molar volume may live in a private helper shared by output and input
-            for n in walk_no_nested(f.node):
-                if isinstance(n, ast.Call) and isinstance(n.func, ast.Attribute) and src(n.func.value) == 'self' and n.func.attr in c.methods \
-                        and tp_calls(c.methods[n.func.attr]):
-                    f = c.methods[n.func.attr]
-                    ps, _ = run_paths(f.node)
-                    calls = tp_calls(f)
-                    break
-        if not calls:
+        vp = f.params[2]
+
+        def is_phase(x):
+            t = src(x)
+            return 'self.phase' in t and 'phase_container' in t
+
+        def ev(t, scen):
+            if isinstance(t, ast.UnaryOp) and isinstance(t.op, ast.Not):
+                v = ev(t.operand, scen)
+                return None if v is None else not v
+            if isinstance(t, ast.BoolOp):
+                vs = [ev(v, scen) for v in t.values]
+                if isinstance(t.op, ast.And):
+                    return False if any(v is False for v in vs) else (True if all(v is True for v in vs) else None)
+                return True if any(v is True for v in vs) else (False if all(v is False for v in vs) else None)
+            if isinstance(t, ast.Compare) and len(t.ops) == 1 and isinstance(t.ops[0], (ast.Eq, ast.NotEq)) \
+                    and (is_phase(t.left) != is_phase(t.comparators[0])):
+                return scen['eq'] if isinstance(t.ops[0], ast.Eq) else not scen['eq']
+            if isinstance(t, ast.Call) and isinstance(t.func, ast.Attribute) and t.func.attr == 'in_equilibrium' and [src(a) for a in t.args] == ['self.TP']:
+                return scen['tp']
+            return None
+
+        n_hit = n_miss = 0
+        bad = {}
+        for p in ps:
+            if p.raised:
+                continue
+            evals = [e for e in p.events if e.kind == 'call' and any(isinstance(a, ast.Starred) and src(a.value) == 'self.TP' for a in e.node.args)]
+            conds = []
+            for e in p.events:
+                if e.kind == 'cond' and isinstance(e.stmt, ast.If):
+                    conds.append((resolved(e.stmt.test, path_defs(p, e), keep=set(f.params)), e.value))
+            if p.ret is None:
+                bad['paths'] = 'unexpected control flow'
+                continue
+            if evals:
+                n_miss += 1
+                st = [e for e in p.events if e.kind == 'store' and e.target.startswith('self.cache[') and e.extra and len(e.extra) == 3]
+                if not st or st[-1].extra[0].pretty() != 'self.TP.copy()':
+                    bad['stale-V'] = 'molar volume is not re-evaluated (or the live TP object is cached) when T or P changed'
+                    continue
+                rec = st[-1].extra
+                if not ('self.phase' in rec[1].pretty() and 'phase_container' in rec[1].pretty()):
+                    bad['stale-V-phase'] = 'the cached molar volume depends on the phase, but the cached entry does not record the phase it was computed for'
+                want = Form.atom(vp) * rec[2] if nm == 'output' else Form.atom(vp) * rec[2].inv() if rec[2].inv() is not None else None
+                if want is None or p.ret != want:
+                    bad['form'] = 'the value returned on a miss is not value %s the volume that was just recorded' % ('*' if nm == 'output' else '/')
+            else:
+                n_hit += 1
+                for scen, tag, why in (({'eq': True, 'tp': False}, 'stale-V', 'molar volume is not re-evaluated (or the live TP object is cached) when T or P changed'),
+                                       ({'eq': False, 'tp': True}, 'stale-V-phase', 'the cached molar volume depends on the phase, but the validity test / cached entry '
+                                        'does not cover it: after a phase change at the same T and P the volume of the old phase is reported')):
+                    excluded = any(v is not None and v != taken for v, taken in ((ev(t, scen), taken) for t, taken in conds))
+                    if not excluded:
+                        bad[tag] = why
+        if not n_miss:
             d4.fail(cons, 'anchor', 'molar volume evaluation V(*self.TP) not found', f, f.node)
             continue
-        guards = [n for n in walk_no_nested(f.node) if isinstance(n, ast.If) and any(x is calls[0] for b in n.body for x in ast.walk(b))]
-        if not guards:
-            d4.fail(cons, 'stale-V', 'the molar volume is not re-evaluated under a validity test', f, f.node)
-            continue
-        g = guards[0]
-        lin_names = {}
-        for n in walk_no_nested(f.node):
-            if isinstance(n, ast.Assign) and len(n.targets) == 1 and isinstance(n.targets[0], ast.Name):
-                lin_names[n.targets[0].id] = src(n.value)
-        test = src(g.test)
-        tp_ok = 'in_equilibrium(self.TP)' in test and test.count('not') >= 1
-        # phase: the test compares the current phase with the one stored in the entry
-        phase_names = [k for k, v in lin_names.items() if 'self.phase' in v and 'phase_container' in v]
-        ph_ok = any(re.search(r'\b%s\b\s*!=' % re.escape(k), test) or re.search(r'!=\s*\b%s\b' % re.escape(k), test) for k in phase_names)
-        stores = [n for n in ast.walk(g) if isinstance(n, ast.Assign) and isinstance(n.targets[0], ast.Subscript) and src(n.targets[0].value) == 'self.cache']
-        copy_ok = bool(stores) and isinstance(stores[0].value, ast.Tuple) and src(stores[0].value.elts[0]) == 'self.TP.copy()'
-        rec_phase = bool(stores) and isinstance(stores[0].value, ast.Tuple) and any(src(e) in phase_names for e in stores[0].value.elts)
-        if tp_ok and copy_ok:
-            d4.ok(cons, 'V is re-evaluated when the cached T,P differ; the entry caches a copy of TP', f, g)
-        else:
-            d4.fail(cons, 'stale-V', 'molar volume is not re-evaluated (or the live TP object is cached) when T or P changed', f, g)
-        if ph_ok and rec_phase:
-            d4.ok(cons, 'the entry records the phase it was computed for and a different current phase invalidates it', f, g)
-        else:
-            d4.fail(cons, 'stale-V-phase', 'the cached molar volume depends on the phase, but the validity test / cached entry does not cover it: '
-                    'after a phase change at the same T and P the volume of the old phase is reported', f, g)
-        # on a hit the stored V is used, on a miss the recomputed one: value (*|/) V
-        okk = all(p.ret is not None for p in ps) and len(ps) == 2
-        if not okk:
-            d4.fail(cons, 'paths', 'unexpected control flow', f, f.node)
+        if not n_hit:
+            bad.setdefault('paths', 'unexpected control flow')
+        if 'stale-V' not in bad:
+            d4.ok(cons, 'V is re-evaluated when the cached T,P differ; the entry caches a copy of TP', f)
+        if 'stale-V-phase' not in bad:
+            d4.ok(cons, 'the entry records the phase it was computed for and a different current phase invalidates it', f)
+        for tag, why in sorted(bad.items()):
+            d4.fail(cons, tag, why, f, f.node)
+        if 'form' not in bad and 'paths' not in bad:
+            d4.ok(cons, 'hit paths use the remembered volume, miss paths the one just recorded (%d + %d paths): value %s V' % (n_hit, n_miss, '*' if nm == 'output' else '/'), f)
